@@ -14,3 +14,5 @@ import SophtVerif.Model.Prog2D
 import SophtVerif.Lemmas.Prog2D
 import SophtVerif.Props.C13
 import SophtVerif.Props.C20
+import SophtVerif.Core.Order
+import SophtVerif.Props.C15
